@@ -1,0 +1,11 @@
+//go:build verif
+
+package db
+
+// Lemma functions for /verif/cmd/vcgo: the bodies are empty, the contracts
+// (contracts_verif.go) are statements about the storage key functions for all
+// data types, session ids and keys. Compiled only under the `verif` tag.
+
+func lemmaTypesIsolated(pa uint8, ida, ka string, pb uint8, idb, kb string) {}
+
+func lemmaSessionsIsolated(pfx uint8, ida, ka, idb, kb string) {}
